@@ -26,7 +26,7 @@
 From Verif Require Import Base Token Lex LexProofs Headers Blocks Pairing Fold ScanFile Spec
   SpecProofsDyck SpecProofsPairing SpecProofsFold SpecProofsCount SpecProofs
   Regex TokEngine HeaderSpec HeaderProofsDfa HeaderProofsSelect HeaderProofs SpecCheck
-  LexShapes ShapeProofs PySpec PySpecProofsLines PySpecProofs PySpecCheck PyLexical.
+  LexShapes ShapeProofs PySpec PySpecProofsLines PySpecProofs PySpecCheck PyLexical GenCompare TieProofs.
 From Coq Require Import Sorted Permutation.
 
 Theorem C01_brace_pipeline_partial : forall (l : language) toks ds,
@@ -136,6 +136,32 @@ Theorem C01_python_hypotheses_decidable : forall ts ds,
   (py_lexically_canonical_b ts ds = true -> py_lexically_canonical ts ds).
 Proof. intros ts ds. split; [apply py_wf_descs_b_sound|apply py_lexically_canonical_b_sound]. Qed.
 
+(* ---- the comparison operators of the hand-written scope model are the ones the source states: each is equal to
+        the definition regenerated from TokenRange.py / Scope.py / scope_utils.py / Python.py on this run ---- *)
+Theorem C01_operators_tied :
+  (forall a b, r_lt a b = token_range_lt (fst (zr a)) (snd (zr a)) (fst (zr b)) (snd (zr b))) /\
+  (forall a b, r_contains a b = token_range_contains (fst (zr a)) (snd (zr a)) (fst (zr b)) (snd (zr b))) /\
+  (forall a b, r_overlaps a b = token_range_overlaps (fst (zr a)) (snd (zr a)) (fst (zr b)) (snd (zr b))) /\
+  (forall a b, s_contains a b = scope_contains (Z.of_nat (h_start (s_header a))) (Z.of_nat (snd (s_block a)))
+                                               (Z.of_nat (h_start (s_header b))) (Z.of_nat (snd (s_block b)))) /\
+  (forall h b : range, Nat.leb (snd h) (fst b) = nearest_block_is_later (Z.of_nat (fst b)) (Z.of_nat (snd h)) /\
+                       Nat.leb (snd h) (fst b) = scope_block_after_header (Z.of_nat (fst b)) (Z.of_nat (snd h))) /\
+  (forall idx r rest, drop_passed idx (r :: rest) =
+     if child_range_passed (Z.of_nat idx) (Z.of_nat (snd r)) then drop_passed idx rest else r :: rest) /\
+  (forall i r c rs, drop_passed i (c :: rs) = c :: rs ->
+     scope_token_indices (i :: r) (c :: rs) =
+     if before_child_range (Z.of_nat i) (Z.of_nat (fst c)) then i :: scope_token_indices r (c :: rs) else scope_token_indices r (c :: rs)) /\
+  (forall ts li l r hline hindent acc, block_lines ts ((li, l) :: r) hline hindent acc =
+     if py_line_not_below_header (tok_line ts (line_first l)) hline then acc
+     else if py_line_deeper (tok_col ts (line_first l)) hindent then block_lines ts r hline hindent (acc ++ [li])
+     else block_lines ts r hline hindent []) /\
+  (forall (ts : list token) (h : header), Nat.leb (length ts) (h_end h) = py_header_at_end (Z.of_nat (h_end h)) (Z.of_nat (length ts))).
+Proof.
+  split; [exact tie_range_lt|]. split; [exact tie_range_contains|]. split; [exact tie_range_overlaps|].
+  split; [exact tie_scope_contains|]. split; [exact tie_block_after_header|]. split; [exact tie_drop_passed|].
+  split; [exact tie_scope_token_step|]. split; [exact tie_block_lines|exact tie_py_header_at_end].
+Qed.
+
 (* the boolean checkers the harness evaluates are sound for the hypotheses *)
 Theorem C01_hypotheses_decidable : forall ts ds,
   (wf_descs_b ts ds = true -> wf_descs ts ds) /\ (lexically_canonical_b ts ds = true -> lexically_canonical ts ds).
@@ -150,6 +176,7 @@ Print Assumptions C01_hypotheses_decidable.
 Print Assumptions C01_headers_lexical.
 Print Assumptions C01_brace.
 Print Assumptions C01_flat.
+Print Assumptions C01_operators_tied.
 Print Assumptions C01_python.
 Print Assumptions C01_python_blocks.
 Print Assumptions C01_python_hypotheses_decidable.
